@@ -14,6 +14,7 @@
    lockout window that started at tj.  Histories: any length, any work ids, any configuration;
    times non-negative and non-decreasing (wf_times). *)
 From Verif Require Import Base.Util Model.Coordinator Proofs.CoordinatorProofs.
+From Verif Require Import Base.GenIR Gen.GeneratedTr Proofs.GenTrCoordinator.
 Open Scope Z_scope.
 
 (* Every answer the model gives to Accept / ShouldTransmit / the report-level calls, in every
@@ -143,6 +144,35 @@ Print Assumptions C06_locked_monotone.
 Theorem C06_checker_sound : forall c h, C06_check c h = true -> C06_spec c h.
 Proof. exact C06_check_sound. Qed.
 Print Assumptions C06_checker_sound.
+
+(* ---- Tie to the source by translation (regenerated from /repo on every run, Gen/GeneratedTr.v) ----
+   g_coord_Accept / g_coord_ShouldTransmit / g_coord_checkEvents_body are the decision terms /verif/gen
+   translated from the CURRENT coordinator.go: every condition, the branch structure, which white-listed
+   effect runs on which path.  The model's accept / should_transmit / step_event (about which all the
+   theorems above speak) take exactly these decisions, for every state, time, work id, block and event.
+   [opt_ok r] / [getv r] are Go's (ok, v) of cache.Get, v being the zero record when absent. *)
+Theorem C06_gen_Accept_decisions : forall c t w b s,
+  let r := cget t w (s_cache s) in
+  run_accept c t w b s (g_coord_Accept (opt_ok r) (Z.of_N (e_check (getv r))) (Z.of_N b)) = Some (accept c t w b s).
+Proof. exact gen_coord_Accept. Qed.
+Print Assumptions C06_gen_Accept_decisions.
+
+Theorem C06_gen_ShouldTransmit_decisions : forall t w b s,
+  let r := cget t w (s_cache s) in
+  g_coord_ShouldTransmit (opt_ok r) (Z.of_N (e_check (getv r))) (e_pend (getv r)) (Z.of_N b)
+  = ([], RetB (should_transmit t w b s)).
+Proof. exact gen_coord_ShouldTransmit. Qed.
+Print Assumptions C06_gen_ShouldTransmit_decisions.
+
+Theorem C06_gen_checkEvents_decisions : forall c t s e,
+  let rv := cget t (ev_id e) (s_vis s) in
+  let rc := cget t (ev_w e) (s_cache s) in
+  run_event c t s e (getv rc)
+    (g_coord_checkEvents_body (ev_conf e) (c_minconf c) (opt_ok rv) (opt_ok rc)
+                              (Z.of_N (ev_check e)) (Z.of_N (e_check (getv rc))))
+  = Some (step_event c t s e).
+Proof. exact gen_coord_checkEvents. Qed.
+Print Assumptions C06_gen_checkEvents_decisions.
 
 (* Non-vacuity: a history with two work ids, an acceptance, a higher acceptance, a perform event,
    an expiry and a restart is well-formed; the model answers true to a transmit query, and the
